@@ -3,9 +3,19 @@
 // Contracts for package lz4, read by /verif's govc (see /verif/DESIGN.md). Comment-only.
 package lz4
 
+// ---- C08 (wrappers only): the LZ4 block functions of github.com/pierrec/lz4 are used by assumed contract ----------
+// lz4valid(b) / lz4origlen(b) / lz4orig(b): whether the bytes b are a valid block, and the length and contents of
+// the byte string it denotes. UncompressBlock succeeds exactly when the block is valid and the destination is at
+// least lz4origlen long. The LZ4 format cannot expand a block by more than 255:1.
+
+// decompress must succeed on every valid block (whatever its compression ratio) and return exactly the denoted bytes.
 //@ func decompress
 //@   prop C04, C08
-//@   invariant #0 size: 2*len(source) <= i && i <= 16*len(source)
-//@   invariant #0 written: 0 <= written && written <= len(dest)
-//@   decreases #0 16*len(source) - i
 //@   assigns nothing
+//@   invariant #0 size: 2*len(source) <= i && i <= 512*len(source)
+//@   invariant #0 doubling: i == 2*len(source) || i == 4*len(source) || i == 8*len(source) || i == 16*len(source) || i == 32*len(source) || i == 64*len(source) || i == 128*len(source) || i == 256*len(source) || i == 512*len(source)
+//@   invariant #0 written: 0 <= written && written <= len(dest)
+//@   invariant #0 tried: i > 2*len(source) ==> (err != nil && (lz4valid(source) ==> lz4origlen(source) > i / 2))
+//@   decreases #0 512*len(source) - i
+//@   ensures complete: lz4valid(source) && lz4origlen(source) <= 255*len(source) ==> err == nil && len(dest) == lz4origlen(source)
+//@   ensures sound: err == nil ==> lz4valid(source) && len(dest) == lz4origlen(source)
